@@ -1441,8 +1441,8 @@ class ArrowCS(MagicProperties):
         (e.g. `color`, `show`).
     """
 
-    def __init__(self, x=None, y=None, z=None):
-        super().__init__(x=x, y=y, z=z)
+    def __init__(self, x=None, y=None, z=None, **kwargs):
+        super().__init__(x=x, y=y, z=z, **kwargs)
 
     @property
     def x(self):
@@ -1490,8 +1490,8 @@ class ArrowSingle(MagicProperties):
         Valid css color. Can also be one of `['r', 'g', 'b', 'y', 'm', 'c', 'k', 'w']`.
     """
 
-    def __init__(self, show=True, color=None):
-        super().__init__(show=show, color=color)
+    def __init__(self, show=True, color=None, **kwargs):
+        super().__init__(show=show, color=color, **kwargs)
 
     @property
     def show(self):
